@@ -181,8 +181,8 @@ def ambiguous_logical(n, v, depth=0):
     branch; the writer may legitimately pick another one it also conforms to, and that
     branch's logical type may not accept the raw number on read: known finding.)"""
     n = refavro.deref(n)
-    if depth > 8:
-        return False
+    if depth > 400:
+        return False   # (the walk follows the finite value, this only guards against a harness bug)
     if n.k == "union":
         conf = [b for b in n.branches if refavro.conforms(b, v)]
         if len(conf) >= 2 and any(_has_logical(b) for b in conf):
